@@ -12,9 +12,24 @@ package proto
 // receive queues), so with KeepNetworkOrder it must never be 0.
 //@ spec func orderOf(id uint64, keep bool) uint8 = (keep ? uint8(id % 255) + 1 : 0)
 
-//@ func (c *connection) send
+// connection.send: the frame leaves on exactly one pooled link; with a non-zero order value that link
+// is a fixed function of it; a frame over the peer's limit is refused before anything is written; the
+// compression envelope keeps the receiver's order byte.
+//@ iface io.Writer.Write
+//@ iface gen.CompressionType.ID
+//@ func (t gen.CompressionType) ID
 //@   trusted
+//@ func (c *connection) send
+//@   props C12 C13
 //@   modifies buf.B
+//@   requires [frame] buf != nil && len(buf.B) >= 8 && buf.B[7] != protoMessageZ
+//@   requires [pool] forall i int :: 0 <= i && i < len(c.pool) ==> c.pool[i] != nil
+//@   at call Write assert [size_limit] c.peer_maxmessagesize > 0 ==> len(p) <= c.peer_maxmessagesize
+//@   at call Write assert [link_of_order] order != 0 ==> pi == c.pool[int(order) % len(c.pool)]
+//@   at call Write assert [frame_header] len(p) >= 8 && (p[7] == protoMessageZ ==> p[0] == protoMagic && p[1] == protoVersion && u32be(p, 2) == uint32(len(p)) && p[6] == old(buf.B[6]))
+//@   at call Write assert [uncompressed_is_unchanged] p[7] != protoMessageZ || (compression.Enable && old(len(buf.B)) > compression.Threshold)
+//@   ensures [too_large] c.peer_maxmessagesize > 0 && !compression.Enable && old(len(buf.B)) > c.peer_maxmessagesize ==> result == gen.ErrTooLarge
+//@   ensures [no_link] len(c.pool) == 0 && (c.peer_maxmessagesize == 0 || old(len(buf.B)) <= c.peer_maxmessagesize) && !compression.Enable ==> result == gen.ErrNoConnection
 
 //@ func (c *connection) SendPID
 //@   props C13 C12 C14
